@@ -241,12 +241,77 @@ func ruleComposite(c *Ctx) {
 			}
 			n++
 			c.touch(f)
-			ord[fnName(f)]++
-			c.bad(fnName(f), fmt.Sprintf("composite key #%d is injective", ord[fnName(f)]), c.P.ipos(in),
+			// the obligation is named by where the key goes (its sink), so that it keeps its identity when the
+			// code that builds it is moved or renamed, and a composite key for a NEW purpose is a new obligation
+			sink := compositeSink(in.(ssa.Value), f)
+			ord[sink]++
+			c.bad(sink, fmt.Sprintf("composite key #%d is injective (built in %s)", ord[sink], fnName(f)), c.P.ipos(in),
 				"a sparse-mode index key is the plain concatenation bucket+key with no length prefix or separator: different (bucket, key) pairs collide (\"a\"+\"bc\" == \"ab\"+\"c\"), so one bucket can read or overwrite another bucket's entry")
 		})
 	}
 	if n == 0 {
 		c.ok("sparse-mode composite keys", "no ambiguous bucket+key concatenation", "", "")
 	}
+}
+
+// compositeSink describes what a concatenated bucket+key value is used for.
+func compositeSink(v ssa.Value, f *ssa.Function) string {
+	seen := map[ssa.Value]bool{}
+	var walk func(v ssa.Value, d int) string
+	walk = func(v ssa.Value, d int) string {
+		if v == nil || seen[v] || d > 6 || v.Referrers() == nil {
+			return ""
+		}
+		seen[v] = true
+		for _, r := range *v.Referrers() {
+			switch x := r.(type) {
+			case *ssa.MapUpdate:
+				if x.Key == v {
+					if fv, base := lastField(x.Map); fv != nil {
+						return fieldQual(derefT(base.Type()), fv)
+					}
+					return "a local map in " + fnName(f)
+				}
+			case *ssa.Lookup:
+				if x.Index == v {
+					if fv, base := lastField(x.X); fv != nil {
+						return fieldQual(derefT(base.Type()), fv)
+					}
+					return "a local map in " + fnName(f)
+				}
+			case ssa.CallInstruction:
+				for _, a := range x.Common().Args {
+					if a == v {
+						return "argument of " + calleeName(x.Common())
+					}
+				}
+			case *ssa.Return:
+				return "result of " + fnName(f)
+			case *ssa.Store:
+				if x.Val == v {
+					if fa, ok := x.Addr.(*ssa.FieldAddr); ok {
+						return fieldQual(derefT(fa.X.Type()), fieldVarOf(fa))
+					}
+					if al, ok := x.Addr.(*ssa.Alloc); ok {
+						for _, rr := range *al.Referrers() {
+							if ld, ok := rr.(*ssa.UnOp); ok {
+								if s := walk(ld, d+1); s != "" {
+									return s
+								}
+							}
+						}
+					}
+				}
+			case *ssa.Convert, *ssa.ChangeType, *ssa.MakeInterface, *ssa.Slice, *ssa.Phi:
+				if s := walk(r.(ssa.Value), d+1); s != "" {
+					return s
+				}
+			}
+		}
+		return ""
+	}
+	if s := walk(v, 0); s != "" {
+		return s
+	}
+	return "a value in " + fnName(f)
 }
